@@ -30,6 +30,25 @@ def validate {σ ε : Type} (M : Sys σ ε) (ofRaw : RawEv → Option ε) (lines
           | some s' => go s' (n + 1) ls
   go M.init 0 lines
 
+/-- Validation with projection: `ofRaw r = some none` means "not this model's business, skip";
+    `none` means the line should have been understood and was not (divergence). -/
+def validateP {σ ε : Type} (M : Sys σ ε) (ofRaw : RawEv → Option (Option ε)) (lines : List String) :
+    Nat × Option (Nat × String × String) :=
+  let rec go (s : σ) (n : Nat) (ln : Nat) : List String → Nat × Option (Nat × String × String)
+    | [] => (n, none)
+    | l :: ls =>
+      match parseLine l with
+      | none => (n, some (ln + 1, l, "unparsable line"))
+      | some r =>
+        match ofRaw r with
+        | none => (n, some (ln + 1, l, "event not in the model's vocabulary"))
+        | some none => go s n (ln + 1) ls
+        | some (some e) =>
+          match M.step s e with
+          | none => (n, some (ln + 1, l, "model cannot take this step here"))
+          | some s' => go s' (n + 1) (ln + 1) ls
+  go M.init 0 0 lines
+
 def queueMonitor (cfg : QueueHist.Cfg) (lines : List String) : Option String :=
   let notes := lines.filterMap (fun l => (parseLine l).bind QueueHist.noteOfRaw)
   QueueHist.check cfg (QueueHist.opsOf notes)
